@@ -159,6 +159,7 @@ func (s *KVSys[K, V]) Name() string {
 	return n + s.Label
 }
 func (s *KVSys[K, V]) Props() []string { return s.PropsL }
+func (s *KVSys[K, V]) setNoCount()     { s.NoCount = true }
 
 func (s *KVSys[K, V]) ordered() bool {
 	switch s.Kind {
